@@ -311,6 +311,11 @@ namespace Pistache
         std::size_t start_pos = data.find('[');
         if (start_pos != std::string::npos && end_pos != std::string::npos && start_pos < end_pos)
         {
+            // The bracketed literal is the host: nothing may stand in front of it
+            // ("x::1[]:80" is not the address ::1)
+            if (start_pos != 0)
+                throw std::invalid_argument("Invalid address");
+
             std::size_t colon_pos = data.find_first_of(':', end_pos);
             if (colon_pos != std::string::npos)
             {
